@@ -4,7 +4,7 @@
    spec_case : what the implementation did satisfies the property's specification, judged
                directly on the observed values (no model function decides the verdict, except the
                shared parsers of an address / a response scope where noted). *)
-From Sdns Require Export Common.Base Common.GoList Gen.C19 C19.Model C19.WireOpt C19.WireReq.
+From Sdns Require Export Common.Base Common.GoList Gen.C19 C19.Model C19.WireOpt C19.WireReq C19.WirePacket.
 Open Scope N_scope.
 
 Inductive case :=
@@ -41,10 +41,16 @@ Inductive case :=
   (* a request tree against seeded shared denial state.  Per node, pre-order: which of the three
      permissions the node's question probes (0 RFC 8020 cut consumed, 1 RFC 8198 proof consumed,
      2 shared denial state created, 3 none: a plain alias hop) and whether that happened *)
+  (* the same, each query tagged (wire-born: ParseWire + ResetWire + AllowDirectPack?, answered by the
+     cache without ever decoding the request?) *)
+| CaseCacheW (c : ccfg) (ops : list (cop * obs * (bool * bool)))
 | CaseDenial (b : bargs) (t : rtree) (seen : list (N * bool))
   (* the same with a WIRE-BORN root (ParseWire + ResetWire + AllowDirectPack, as the server's listeners
      enter): the cache's byte ladder runs first on the undecoded request *)
-| CaseDenialWire (b : bargs) (t : rtree) (seen : list (N * bool)).
+| CaseDenialWire (b : bargs) (t : rtree) (seen : list (N * bool))
+  (* a query (remote, options of its OPT, wire-born?) for a name whose resolution failure is cached under
+     the SHARED failure key with the query's own CD bit: was it answered from that entry? *)
+| CaseFailure (b : bargs) (remote : ipb) (opts : option (list eopt)) (wire : bool) (consumed : bool).
 
 (* ------------------------------------------------------------------ equality *)
 Definition ipb_eqb (a b : ipb) : bool := (ipb_len a =? ipb_len b) && (ipb_val a =? ipb_val b).
@@ -97,6 +103,18 @@ Fixpoint check_ops (c : ccfg) (st : store) (ops : list (cop * obs)) : bool :=
       obs_eqb ob' ob && check_ops c st' r
   end.
 
+(* histories with wire-born queries: the decoded body's model gives the observation (the byte path
+   refines it: Proofs_cache.serve_wire_refines); a query is answered from bytes EXACTLY when it is
+   wire-born and the byte path's model admits it (the harness writer grants every lease) *)
+Fixpoint check_ops_w (c : ccfg) (st : store) (ops : list (cop * obs * (bool * bool))) : bool :=
+  match ops with
+  | [] => true
+  | (o, ob, (wire, from_bytes)) :: r =>
+      let '(st', ob') := serve c st (co_q o) (co_up o) (co_aged o) (co_rf o) in
+      let may := match serve_wire c st (co_q o) (co_aged o) with Some w => obs_eqb w ob | None => false end in
+      obs_eqb ob' ob && Bool.eqb from_bytes (wire && may) && check_ops_w c st' r
+  end.
+
 Definition perm_sel (k : N) (p : dperm) : bool :=
   if k =? 0 then dp_cut p else if k =? 1 then dp_proof p else dp_create p.
 
@@ -129,6 +147,8 @@ Definition check_case (c : case) : bool :=
       list_eqb N.eqb (append_wire_opt body f) (body ++ appended)
   | CaseWireOPT raw off adm e n k =>
       (* the translated parseWireOPT: admission, and the facts on the Request it hands back *)
+      (if (off <? 0)%Z then true   (* not exactly one additional record: ParseWire does not call parseWireOPT *)
+       else
       match wire_opt_parse raw off with
       | Some (a, r) =>
           Bool.eqb a adm &&
@@ -136,12 +156,24 @@ Definition check_case (c : case) : bool :=
                        Bool.eqb (T_Request_hasKeepalive r) k
            else true)
       | None => false
+      end) &&
+      (* and the WHOLE packet through C05's model of Request.ParseWire (header gate, question walk, OPT) *)
+      match packet_has_ecs raw with
+      | Some e' => adm && Bool.eqb e' e
+      | None => negb adm
       end
   | CaseCache c ops => check_ops c [] ops
+  | CaseCacheW c ops => check_ops_w c [] ops
   | CaseDenial b t seen =>
       perms_match (tree_perms (policy_of b) (mk_dctx false false) t) seen
   | CaseDenialWire b t seen =>
       perms_match (tree_perms_wire (policy_of b) true t) seen
+  | CaseFailure b remote opts wire consumed =>
+      (* bytes first (behind the gate), else the decoded body; the rung of the byte ladder may also
+         decline for its own reasons (miss witness), the body then decides: one verdict *)
+      Bool.eqb consumed
+        ((wire && wire_failure_gate true (match opts with Some l => has_ecs l | None => false end)) ||
+         failure_consults_shared (policy_of b) remote opts)
   end.
 
 (* ------------------------------------------------------------------ specification oracles *)
@@ -411,12 +443,36 @@ Definition spec_case (c : case) : bool :=
       (* an admitted packet's OPT, read by the RFC 6891 reader (not by the code's walk): the request is
          marked as carrying ECS exactly when a client-subnet option (code 8) is among its options *)
       if adm then
+        if (off <? 0)%Z then negb e        (* admitted without an OPT: cannot be marked *)
+        else
         match read_opt_rr (skipn (Z.to_nat off) raw) with
         | Some (_, _, os) => Bool.eqb e (existsb (fun o => fst o =? 8) os)
         | None => false
         end
       else true
   | CaseCache c ops => spec_ops c [] ops
+  | CaseCacheW c ops =>
+      (* the audience rules of spec_ops; and what came from bytes went to a query without a subnet
+         option and was a shared hit (spec_ops: a shared hit serves an answer whose audience is everyone) *)
+      spec_ops c [] (map fst ops) &&
+      forallb (fun x => let '(o, ob, (wire, from_bytes)) := x in
+                        negb from_bytes ||
+                        (wire && (ob_src ob =? 2) &&
+                         negb (match q_opts (co_q o) with Some l => has_ecs l | None => false end))) ops
   | CaseDenial b t seen => negb (root_isolated t) || forallb (fun s => negb (snd s)) seen
   | CaseDenialWire b t seen => negb (root_isolated t) || forallb (fun s => negb (snd s)) seen
+  | CaseFailure b remote opts wire consumed =>
+      (* judged without the model's request-scope function: the shared failure entry may answer only a
+         query for which nothing of the client's subnet would go upstream (its resolution is then the
+         same as anybody's): no policy, client not eligible, no subnet option, an unusable one, or a /0 source *)
+      negb consumed ||
+      match policy_of b, opts with
+      | Some pl, Some l =>
+          negb (pl_enabled pl && allows (Some pl) (addr_from_slice_unmap remote)) ||
+          negb (existsb (fun o => match o with
+                                  | OEcs e => match clamp (Some pl) (Some e) with Some f => negb (e_mask f =? 0) | None => false end
+                                  | OOther _ => false
+                                  end) l)
+      | _, _ => true
+      end
   end.
